@@ -7,7 +7,7 @@ SPEC = {
     "suites": [
         Suite(name="start", harness="vh_start", runner="start",
               model_deps=["theories/Model/Start.vo"],
-              quick_n=2000, thorough_n=20000, timeout=1500,
+              quick_n=2300, thorough_n=20000, timeout=1500,
               rule="the harness binary re-executes itself as an instrumented application main (start_test.go's technique) that "
                    "logs the marker variables it finds and calls the REAL telemetry.Start with the telemetry directory "
                    "redirected; the sidecar Start launches is the same binary and logs too; a symlink `go` first on PATH "
@@ -16,8 +16,11 @@ SPEC = {
                    "all descendants hold a pipe so a case ends when every process it caused has exited. The application "
                    "enters telemetry by Start alone or by MaybeChild first and Start later (the cmd/go pattern; the sidecar "
                    "is the same program, the fake go command always uses the MaybeChild pattern). Cases: the full "
-                   "table entry {Start, MaybeChild-then-Start} x marker {unset, \"\", 1, 2, x} x ReportCrashes x Upload x mode {on, local, off, garbage} x token "
-                   "{absent, 1h, 25h} (480); 40 cases with NO telemetry directory (no Config.TelemetryDir and HOME/XDG_CONFIG_HOME "
+                   "table entry {Start, MaybeChild-then-Start} x marker {unset, \"\", 1, 2, x} x ReportCrashes x Upload x mode FILE {on/local/off with a date as SetMode writes them, "
+                   "garbage, `off` + LF and `on` + LF as a user's echo writes them} x token {absent, 1h, 25h} (720); the mode "
+                   "file's BYTES are the model's input (the model reads the mode itself: trimmed, first word), further "
+                   "hand-written contents (CRLF, blanks, tabs, NBSP, no date, date on the next line, near-off words) are "
+                   "generated; 40 cases with NO telemetry directory (no Config.TelemetryDir and HOME/XDG_CONFIG_HOME "
                    "unset, so os.UserConfigDir fails and telemetry.Default is the zero Dir) and 64 "
                    "with the default directory below XDG_CONFIG_HOME; every process runs in an empty working directory whose "
                    "contents are part of the watched snapshot; then generated cases adding more markers (0, 11, \" 1\", true, 3), 14 mode-file "
@@ -43,7 +46,9 @@ SPEC = {
                   "a delegated program that finds marker 2, at most one sidecar per application, none below a sidecar "
                   "(C16_process_tree_shape, _sidecars_bounded, _no_recursion); mode off: nothing launched by anybody, the "
                   "application's Start only reads the mode file (C16_off_inert_*); without a telemetry directory (no TelemetryDir, "
-                  "no user configuration directory) the same holds whatever files exist (C16_no_directory_*); for EVERY schedule of ANY number of "
+                  "no user configuration directory) the same holds whatever files exist (C16_no_directory_*); off means a mode FILE "
+                  "whose trimmed first word is off, however written - with LF/CRLF, blanks, with or without date "
+                  "(C16_off_file_inert, _off_spelling_is_off); for EVERY schedule of ANY number of "
                   "starters with time passing, within less than the 24h period and the token absent or young through the "
                   "window, at most one acquires the token, and none if it was present (C16_token_at_most_once, "
                   "_token_fresh_no_winner); the stale-token race is exhibited (C16_token_stale_refuted).",
@@ -64,7 +69,8 @@ SPEC = {
         "succeeds for exactly one of several concurrent creators (POSIX; exercised by the real-process and goroutine races)",
         "the token file's modification time is the creating process's current time and the clock is monotone (model: Tick d, d >= 0)",
         "the environment of a started process is the parent's at the time of exec (os.Environ) plus the variables start.go adds",
-        "the mode string is what Dir.Mode returns (C02/C19 model the parsing); the harness sends the real Mode() value",
+        "Dir.Mode's reading of the mode file is modelled here as TrimSpace + first word (mode_of_bytes, same as C02/C19); "
+        "the harness sends the file's bytes, not the implementation's Mode() value",
     ],
     "trusted_base": [],
     "own_objects": ["theories/Props/C16.vo", "theories/Proofs/StartFacts.vo", "theories/Model/Start.vo", "theories/Lib/Sched.vo"],
